@@ -393,7 +393,7 @@ def run_driver(drv, ops, tag):
     return out
 
 
-def stage_validation(ck, exe, drv, tab, ncases, hist):
+def stage_validation(ck, exe, drv, tab, ncases, hist, sample_lines):
     r = nlgen.Rng(ck.seed * 1000003 + 17)
     cdir = os.path.join(BUILD, 'c20cases')
     shutil.rmtree(cdir, ignore_errors=True)
@@ -429,6 +429,9 @@ def stage_validation(ck, exe, drv, tab, ncases, hist):
                 ck.add_violation('graph:no-file', 'the model was converted but no export file was written', replay_obj(c))
             continue
         a = ans[sp[0]:sp[0] + sp[1]]
+        for l in c.lines[::7]:
+            if len(sample_lines) < 5000:
+                sample_lines.append(l)
         lv = a[1:1 + len(c.lines)]
         verdict = a[-1]
         pyrecs = [py_parse_line(l) for l in c.lines]
@@ -479,13 +482,21 @@ def stage_validation(ck, exe, drv, tab, ncases, hist):
         # A16: exported link entries vs. their final extent
         if all(x is not None for x in pyrecs) and c.links_final:
             stale, missing = link_staleness(c, pyrecs)
-            if stale or missing:
+            if missing:
+                ck.add_violation('link-entry-missing:%s' % missing[0][0],
+                                 'link entry %s #%s is registered in the value presolver but has no record in the export (%d such entries)' %
+                                 (missing[0][0], missing[0][1], len(missing)), replay_obj(c))
+            if stale:
                 hist['outcome']['stale-link'] = hist['outcome'].get('stale-link', 0) + 1
-                (key, exp, fin) = stale[0] if stale else (missing[0], None, None)
-                node0 = (exp or fin or [[['?']]])[0][0][0] if (exp or fin) else '?'
-                ck.add_violation('link-entry-stale:%s:%s' % (key[0], node0),
-                                 'link entry %s #%s was exported as %s but its final extent is %s (%d stale, %d never exported in this run)' %
-                                 (key[0], key[1], exp, fin, len(stale), len(missing)), replay_obj(c))
+                (key, exp, fin) = stale[0]
+                node0 = exp[0][0][0] if exp and exp[0] else '?'
+                if fin is None:
+                    ck.add_violation('link-record-unregistered:%s' % key[0], 'the export has a link record %s #%s that is not registered in the value presolver' % key,
+                                     replay_obj(c))
+                else:
+                    ck.add_violation('link-entry-stale:%s:%s' % (key[0], node0),
+                                     'link entry %s #%s was exported as %s but its final extent is %s (%d stale in this run)' %
+                                     (key[0], key[1], exp, fin, len(stale)), replay_obj(c))
             else:
                 hist['links_compared'] = hist.get('links_compared', 0) + len(c.links_final)
     return len(cases), nval, sum(len(c.lines) for c in cases if c.lines is not None)
@@ -510,8 +521,172 @@ def load_corpus_case(exe, tab, cdir, idx, path):
     return c
 
 
+# ------------------------------------------------------------------ stage 2: writer / link-protocol correspondence
+def unhex(h):
+    return b'' if h == '-' else binascii.unhexlify(h)
+
+
+def stage_harness(ck, drv, n_json, n_links, hist):
+    objs = ck.objects([os.path.join(VERIF, 'harness', 'h_c20.cc')], flags=['-O1', '-g'], tag='h') + ck.libmp_objects()
+    exe = ck.link('h_c20', objs)
+    total = 0
+    for mode, n in (('json', n_json), ('links', n_links)):
+        p = subprocess.run([exe, mode, str(ck.seed), str(n)], capture_output=True, text=True)
+        if p.returncode != 0:
+            ck.add_violation('harness:%s:crash' % mode, 'h_c20 %s exited with %s: %s' % (mode, p.returncode, p.stderr[-500:]),
+                             {'cmd': '%s %s %d %d' % (exe, mode, ck.seed, n)}, found_input=False)
+            continue
+        lines = [l for l in p.stdout.split('\n') if l]
+        ops = [l.split(' | ')[0] for l in lines]
+        impl = [l.split(' | ')[1].strip() for l in lines]
+        ans = run_driver(drv, ops, mode)
+        nbad = 0
+        for o, i, a in zip(ops, impl, ans):
+            total += 1
+            if mode == 'json':
+                hist['writer_ops'] = hist.get('writer_ops', 0) + len(o.split()) - 1
+                if i != a:
+                    nbad += 1
+                    ck.add_violation('writer:model-differs', 'MiniJSONWriter wrote %r, the Lean op machine %r for ops %s' % (unhex(i)[:200], unhex(a)[:200] if a != 'bad-op' else a, o[:300]),
+                                     {'ops': o, 'impl_hex': i, 'model_hex': a, 'correspondence': 'h_c20 json vs drv_c20 W'}, found_input=False)
+                else:
+                    # oracle on the real text: if no string needed escaping and all scalars are finite the text must be valid JSON
+                    toks = o.split()[1:]
+                    strs = [unhex(t[2:]) for t in toks if t[:2] in ('k:', 't:')]
+                    nums = [unhex(t[2:]) for t in toks if t[:2] == 's:']
+                    safe = all(not re.search(rb'["\\\x00-\x1f]', x) for x in strs) and all(re.fullmatch(rb'-?[0-9.e+]+', x) for x in nums)
+                    key = 'writer_safe' if safe else 'writer_unsafe'
+                    hist[key] = hist.get(key, 0) + 1
+            else:
+                a0, late = a.rsplit(' late=', 1) if ' late=' in a else (a, '?')
+                hist['links_late'] = hist.get('links_late', 0) + (late == '1')
+                if i != a0:
+                    nbad += 1
+                    ck.add_violation('links:model-differs', 'link export protocol: real code %r..., Lean model %r... for ops %s' % (i[-120:], a0[-120:], o[:300]),
+                                     {'ops': o, 'impl': i, 'model': a, 'correspondence': 'h_c20 links vs drv_c20 X'}, found_input=False)
+                    continue
+                # on the REAL output: exported extents vs final extents; stale => the model must have flagged `late`
+                text, fin, allx = i.split(' ')
+                exported = {}
+                for l in unhex(text).split(b'\n'):
+                    if l:
+                        r = json.loads(l)
+
+                        def ext(nd):
+                            (k, v), = nd[0].items()
+                            return (k, v, v + 1) if isinstance(v, int) else (k, v[0], v[1] + 1)
+                        exported[(r['link_type'][0].lower(), r['link_index'][1])] = ext(r['src_nodes']) + ext(r['dest_nodes'])
+                stale = False
+                nfin = 0
+                if fin != '-':
+                    for e in fin.split(';'):
+                        if e:
+                            f = e.split(',')
+                            nfin += 1
+                            key = (f[1], int(f[2]))
+                            want = (f[3], int(f[4]), int(f[5]), f[6], int(f[7]), int(f[8]))
+                            if key not in exported:
+                                ck.add_violation('links:entry-never-exported', 'entry %s registered but not in the export; ops %s' % (key, o), {'ops': o, 'impl': i})
+                            elif exported[key] != want:
+                                stale = True
+                if allx != 'all=1':
+                    ck.add_violation('links:not-all-exported', 'AllEntriesExported() false after Finish; ops %s' % o, {'ops': o, 'impl': i})
+                if len(exported) != nfin:
+                    ck.add_violation('links:export-count', '%d records exported for %d registered entries; ops %s' % (len(exported), nfin, o), {'ops': o, 'impl': i})
+                hist['links_stale_real'] = hist.get('links_stale_real', 0) + stale
+                if stale and late != '1':
+                    ck.add_violation('links:stale-without-late', 'theorem C20_export_complete_partial contradicted on real output; ops %s' % o,
+                                     {'ops': o, 'impl': i, 'model': a}, found_input=False)
+        hist['harness_' + mode] = {'cases': len(lines), 'disagreements': nbad}
+    return total
+
+
+# ------------------------------------------------------------------ stage 3: parser cross-check
+def py_canon(v):
+    if v is None:
+        return 'n'
+    if v is True:
+        return 't'
+    if v is False:
+        return 'f'
+    if isinstance(v, tuple):
+        return '#' + v[1]
+    if isinstance(v, str):
+        return '$' + ''.join('%d.' % ord(c) for c in v)
+    if isinstance(v, list):
+        return '[' + ''.join(py_canon(x) + ',' for x in v) + ']'
+    return '{' + ''.join(py_canon(k) + ':' + py_canon(x) + ',' for k, x in v) + '}'
+
+
+def py_parse_canon(raw):
+    try:
+        t = raw.decode('utf-8')
+    except UnicodeDecodeError:
+        return 'badutf8'
+
+    def bad_const(x):
+        raise ValueError(x)
+    try:
+        v = json.loads(t, parse_constant=bad_const, parse_float=lambda x: ('#', x), parse_int=lambda x: ('#', x),
+                       object_pairs_hook=lambda kv: dict_pairs(kv))
+    except (ValueError, RecursionError):
+        return 'none'
+    return 'some ' + py_canon(v)
+
+
+class dict_pairs(object):
+    def __init__(self, kv):
+        self.kv = kv
+
+    def __iter__(self):
+        return iter(self.kv)
+
+
+def stage_parser(ck, drv, sample_lines, n_mut, hist):
+    r = nlgen.Rng(ck.seed * 7919 + 3)
+    texts = list(sample_lines)
+    base = [b'{"a": [1, 2.5e+3, -0, 1E-2], "b" : {"c":"x\\ny\\u00e9\\"q"}, "d": [], "e":{} , "t": true, "n": null, "f":false}',
+            b' [ ] ', b'{}', b'0', b'-', b'01', b'1.', b'.5', b'1e', b'1e+', b'"\\x"', b'"a\tb"', b'[1,]', b'{"a":1,}', b'{"a" 1}',
+            b'{"a":1 "b":2}', b'[1 2]', b'nul', b'true false', b'{"a":inf}', b'{"a":NaN}', b'{"a":Infinity}', b'"\\u12"', b'"\\u00zz"',
+            b'\xff', b'"\xc3\xa9"', b'{"k":"v"} x', b'', b'   ', b'[[[[[[[[[[1]]]]]]]]]]', b'{"a":{"a":{"a":[{"a":1}]}}}', b'-0.0e-0', b'1.5E+10',
+            b'"\\/"', b'"\\b\\f\\n\\r\\t"', b'{"dup":1,"dup":2}', b'1e5 ', b'\t[\n1\r,\n2 ]\n']
+    texts += base
+    pool = [t for t in texts if t]
+    alphabet = b'{}[]":,\\ 0123456789.eE+-tfnulrsa\t\x01'
+    for _ in range(n_mut):
+        t = bytearray(r.choice(pool))
+        for _ in range(r.rint(1, 3)):
+            k = r.below(4)
+            pos = r.below(len(t) + 1)
+            if k == 0 and t:
+                del t[min(pos, len(t) - 1)]
+            elif k == 1:
+                t.insert(pos, alphabet[r.below(len(alphabet))])
+            elif k == 2 and t:
+                t[min(pos, len(t) - 1)] = alphabet[r.below(len(alphabet))]
+            else:
+                t = t[:pos]
+        texts.append(bytes(t))
+    ops = ['P ' + hx(t) for t in texts]
+    ans = run_driver(drv, ops, 'parse')
+    nbad = 0
+    nvalid = 0
+    for t, a in zip(texts, ans):
+        want = py_parse_canon(t)
+        if b'\\u' in t and want != 'none' and a != 'none':
+            # surrogate escapes decode differently (python keeps lone surrogates); compare validity only
+            want, a = want[:4], a[:4]
+        nvalid += want.startswith('some')
+        if want != a:
+            nbad += 1
+            ck.add_violation('parser-disagreement', 'Lean parser: %s; python json: %s; text %r' % (a[:120], want[:120], t[:200]),
+                             {'text_hex': hx(t), 'lean': a, 'python': want}, found_input=False)
+    hist['parser_crosscheck'] = {'texts': len(texts), 'valid': nvalid, 'disagreements': nbad}
+    return len(texts)
+
+
 # ------------------------------------------------------------------ entry
-N_THEOREMS = 1
+N_THEOREMS = 16
 
 
 def run(ck):
@@ -529,9 +704,14 @@ def run(ck):
     exe = recsolver.build(ck)
     hist = {'feature': {}, 'names': {}, 'accept': {}, 'outcome': {}, 'record': {}, 'delivered_type': {}, 'stored_type': {},
             'link_type': {}}
-    ncases, nval, nlines = stage_validation(ck, exe, drv, tab, 60 if quick else 600, hist)
+    nh = stage_harness(ck, drv, 4000 if quick else 40000, 4000 if quick else 40000, hist)
+    ck.log('harness: %d op sequences; %s %s' % (nh, hist.get('harness_json'), hist.get('harness_links')))
+    sample_lines = []
+    ncases, nval, nlines = stage_validation(ck, exe, drv, tab, 400 if quick else 5000, hist, sample_lines)
+    npar = stage_parser(ck, drv, sample_lines[:800 if quick else 5000], 4000 if quick else 40000, hist)
+    ck.log('parser cross-check: %s' % hist['parser_crosscheck'])
     ck.log('validation: %d runs, %d converted+validated, %d export lines; outcomes %s' % (ncases, nval, nlines, hist['outcome']))
-    ck.cov['evaluations'] = nlines
+    ck.cov['evaluations'] = nlines + nh + npar
     ck.cov['traces_validated_against_impl'] = nval
     ck.cov['distinct_nontrivial'] = nval
     ck.cov['rule'] = 'one recsolver run of the real converter per generated (model, acceptance set, name mode, options); ' \
